@@ -171,7 +171,9 @@ const (
 // Filter sees every chunk a writer hands to the link and returns what is
 // actually put on the wire (man in the middle). It runs in the writer's task.
 type Filter interface {
-	Filter(b []byte) [][]byte
+	// Filter returns the chunks to put on the wire; cut=true ends the direction
+	// after them (the reader sees EOF, the writer a reset).
+	Filter(b []byte) (out [][]byte, cut bool)
 }
 
 // half is one direction of a stream.
@@ -269,6 +271,12 @@ func (c *Conn) Read(b []byte) (int, error) {
 	n := c.in.q.n
 	switch c.Seg {
 	case SegRandom:
+		if vs.Choose(4) == 0 {
+			vs.Yield() // let another task run although data is available
+			if c.closed {
+				return 0, net.ErrClosed
+			}
+		}
 		n = 1 + vs.Choose(n)
 	case SegByte:
 		n = 1
@@ -297,13 +305,17 @@ func (c *Conn) Write(b []byte) (int, error) {
 		return 0, ErrTimeout
 	}
 	h := c.out
+	h.sent.add(h.dir, b) // what the endpoint handed to the transport, even if the peer is gone
 	if h.rclosed || h.cut {
 		return 0, ErrReset
 	}
-	h.sent.add(h.dir, b)
 	if h.filter != nil {
-		for _, x := range h.filter.Filter(b) {
+		out, cut := h.filter.Filter(b)
+		for _, x := range out {
 			h.deliver(x)
+		}
+		if cut {
+			h.cut = true
 		}
 	} else {
 		h.deliver(b)
